@@ -98,6 +98,20 @@ func replay(args map[string]string) error {
 				sort.Ints(stores)
 				sort.Ints(regions)
 				ev["stores"], ev["regions"] = stores, regions
+				// the region storage (leveldb) is a second place where the first region is written
+				rsRegions := []int{}
+				if rs := pd.S.GetStorage().GetRegionStorage(); rs != nil {
+					ks, _, lerr := rs.LoadRange("raft/r/", "raft/r/\xff", 0)
+					if lerr == nil {
+						for _, k := range ks {
+							var n int
+							fmt.Sscanf(strings.TrimPrefix(k, "raft/r/"), "%d", &n)
+							rsRegions = append(rsRegions, n)
+						}
+					}
+				}
+				sort.Ints(rsRegions)
+				ev["rs_regions"] = rsRegions
 				ib, err := pd.S.IsBootstrapped(ctx, &pdpb.IsBootstrappedRequest{Header: pd.Header()})
 				ev["bootstrapped"] = err == nil && ib.GetBootstrapped()
 				// a request that carries a different cluster id must be refused
